@@ -83,8 +83,10 @@ func TestVerifC22(t *testing.T) { //nolint:gocognit,cyclop,maintidx
 		"invocation recorded; part 3: scripted/perturbed concurrent updaters; part 4: live loopback pairs whose real ICE/DTLS transports are driven into "+
 		"failed/disconnected/closed sub-states by generated faults (DTLS fingerprint/SRTP-profile/cipher/handshake-timeout failures, ICE credential/"+
 		"candidate faults, lost answer), generated follow-up events (remote close, silent remote ICE stop, local close) and generated settings "+
-		"(DisableCloseByDTLS, ICE timeouts, media mix): at every rest of the inputs ConnectionState() must equal the W3C aggregate of closed flag, "+
-		"ICEConnectionState() and DTLS State(); stores are changes and handlers never exceed changes. A case is non-trivial when the walk changes "+
+		"(DisableCloseByDTLS, ICE timeouts, media mix) and generated application callbacks (OnICEConnectionStateChange, ICETransport.OnConnectionStateChange, "+
+		"DTLSTransport.OnStateChange, OnConnectionStateChange: per state value fast, slow by 20µs–250ms, or gated (bounded) on the progress of the other "+
+		"transport / the other peer): at every rest of the inputs (no application transport callback running) ConnectionState() must equal the W3C "+
+		"aggregate of closed flag, ICEConnectionState() and DTLS State(); stores are changes and handlers never exceed changes. A case is non-trivial when the walk changes "+
 		"the state at least twice (parts 2/3) or a live transport reached failed/disconnected or the state changed three times (part 4); distinct by the input sequence")
 	defer run.Finish()
 	sched := kit.NewSched(kit.Seed())
